@@ -2928,9 +2928,26 @@ static int split_args(char *s, char **argv, int max)
   return n;
 }
 
+static long xref(const char *a);
+
 static int sref(const char *a, int allow_closed)
 {
   long v;
+  /* sx<j> / sxl / sxl-<n>: the socket transmission x<j> / xl / xl-<n> was sent on */
+  if (a != NULL && a[0] == 's' && a[1] == 'x') {
+    long j = xref(a + 1);
+    if (j < 0) {
+      return -1;
+    }
+    v = G.tx[j].sock;
+    if (v < 0 || (size_t)v >= G.nsocks) {
+      return -1;
+    }
+    if (!allow_closed && G.socks[v].closed) {
+      return -2;
+    }
+    return (int)v;
+  }
   if (a == NULL || a[0] != 's' || !parse_long(a + 1, &v) || v < 0 ||
       (size_t)v >= G.nsocks || !isdigit((unsigned char)a[1])) {
     return -1;
